@@ -56,6 +56,7 @@ UnitDecls == <<
   UScaled("da", "A", <<12, 1>>, "int", "ta"),
   UScaled("xa", "A", <<5, 1>>, "dec", "a"),
   UScaled("aa", "A", <<100, 1>>, "int", "a"),
+  UScaled("aq", "A", <<1, 10>>, "dec", "ka"),                  \* an alias of the reference unit defined through another unit
   URef("b", "B"),
   UScaled("cb", "B", <<1, 100>>, "dec", "b"),
   UScaled("mb", "B", <<60, 1>>, "int", "b"),
@@ -72,6 +73,7 @@ UnitDecls == <<
   UDerive("ka2", "A2", <<"ka">>),
   UTerm("sq", "A2", << <<"ha", 1>>, <<"ka", 1>> >>),
   UScaled("aa2", "A2", <<100, 1>>, "dec", "a2"),
+  UTerm("kk", "A2", << <<"ka", 1>>, <<"ka", 1>> >>),           \* the very definition ka2 already has: 100 a2 whatever was declared first
   URef("apb", "ApB"),
   UDerive("kapmb", "ApB", <<"ka", "mb">>),
   URef("dpb", "DpB"),
